@@ -322,6 +322,60 @@ def shared_drop_step(entries, k, ren):
     return out
 
 
+# ---- steps that SHARE ONE COMMAND LINE (spec['twins'], round 6).  xvc identifies a step command by its string
+# ---- (`XvcStepCommand { command: String }`, derives Eq): whatever the scheduler keys by the command must still treat the steps
+# ---- of a group as separate executions.  The shared command finds its identity at run time: it takes the first free ticket
+# ---- (`mkdir .ctl/tk_<member>`, atomic) of its group and becomes `sched_step <member>`, so the journal still says which
+# ---- execution started/ended when and each ticket has its own behaviour file.
+
+def add_twins(spec, groups):
+    """groups: lists of steps (>= 2 each, disjoint) that get ONE command string per group.  Which thread runs which ticket is
+    decided at run time, so the members of a group must be interchangeable for the oracle: same dependencies, same `when`,
+    same dependents (asserted here; their behaviours must not fail: the caller's business)."""
+    spec = json.loads(json.dumps(spec))
+    deps = spec_deps(spec)
+    seen = set()
+    for g in groups:
+        g = sorted(g)
+        assert len(g) >= 2 and not (set(g) & seen), groups
+        seen |= set(g)
+        dependents = lambda m: sorted({a for (a, j, _) in spec['edges'] if j == m})
+        assert all(deps[m] == deps[g[0]] and spec['whens'][m] == spec['whens'][g[0]] and dependents(m) == dependents(g[0]) for m in g), \
+            f'twins {g} are not interchangeable'
+        assert not any(m in spec.get(k, []) for m in g for k in ('unspawnable', 'generic', 'textdeps')) and not any(spec['inputs'][m] for m in g)
+    spec['twins'] = [sorted(g) for g in groups]
+    return spec
+
+
+def twin_group(spec, i):
+    for g in spec.get('twins', []):
+        if i in g:
+            return g
+    return None
+
+
+def step_command(ctx, spec, i):
+    """the command string of step i.  Ordinary steps: `exec sched_step s<i> $$`.  Members of a twin group: the same string for the
+    whole group: take the first free ticket, become that member; when every ticket is taken (the command was started more
+    often than the group has steps) run as the last member once more, which the `once` clause reports."""
+    g = twin_group(spec, i)
+    if not g:
+        # `$$`: pid of the shell xvc runs the command with; used by the outcome class "terminated by a signal"
+        return f'exec {ctx.step_bin} s{i} $$'
+    names = ' '.join(f's{m}' for m in g)
+    return (f'for m in {names}; do if mkdir .ctl/tk_$m 2>/dev/null; then exec {ctx.step_bin} $m $$; fi; done; '
+            f'exec {ctx.step_bin} s{g[-1]} $$')
+
+
+def clear_twin_tickets(root, spec):
+    for g in spec.get('twins', []):
+        for m in g:
+            try:
+                os.rmdir(os.path.join(root, '.ctl', f'tk_s{m}'))
+            except OSError:
+                pass
+
+
 def mk_case(spec, pool, behav=None, sched=None, runs=1, missing=(), absent_outputs=False, label='', touch_inputs=False, fault=None):
     n = spec['n']
     behav = behav or [{} for _ in range(n)]
@@ -380,8 +434,7 @@ def build_template(ctx, spec, absent_outputs=False):
         if rc != 0:
             raise RuntimeError(f'xvc pipeline {" ".join(args)} failed rc={rc}: {err[-500:]}')
     for i in range(n):
-        # `$$`: pid of the shell xvc runs the command with; used by the outcome class "terminated by a signal"
-        args = ['step', 'new', '-s', f's{i}', '-c', f'exec {ctx.step_bin} s{i} $$']
+        args = ['step', 'new', '-s', f's{i}', '-c', step_command(ctx, spec, i)]
         if spec['whens'][i] != 'by_dependencies':
             args += ['--when', spec['whens'][i]]
         x(*args)
@@ -679,6 +732,8 @@ def run_case(ctx, case, hook=False, timeout=20, keep=False):
                     st = os.stat(pth)
                     os.utime(pth, ns=(st.st_atime_ns + 2_000_000_000, st.st_mtime_ns + 2_000_000_000))
         jp = os.path.join(root, '.ctl', 'journal')
+        if spec.get('twins'):
+            clear_twin_tickets(root, spec)
         for pth in (jp, trace_path):
             try:
                 os.unlink(pth)
@@ -1008,6 +1063,11 @@ def drop_step(case, k):
         v = shared_drop_step(spec['shared'], k, ren)
         if v:
             nspec['shared'] = v
+    if spec.get('twins'):
+        v = [[ren[m] for m in g if m != k] for g in spec['twins']]
+        v = [g for g in v if len(g) >= 2]
+        if v:
+            nspec['twins'] = v
     c = dict(case)
     c['spec'] = nspec
     c['behav'] = [b for i, b in enumerate(case['behav']) if i != k]
@@ -1142,6 +1202,8 @@ def run_family(ctx, stream, cases, own, hook=False, timeout=20, workers=8, valid
         for e in case['spec'].get('shared', []):
             chk.count(f'shared:{e["kind"]}:{"exists" if e["exists"] else "missing"}:users={len(e["users"])}' + (':creator' if e.get('creator') is not None else '') +
                       ((':declared-output-' + ('written' if e.get('created') else 'not-written')) if e.get('output_of') is not None else ''))
+        for g in case['spec'].get('twins', []):
+            chk.count(f'twins:steps-sharing-one-command-line={len(g)}')
         for key in ('unspawnable', 'generic', 'textdeps', 'missing'):
             k = len(case['spec'].get(key, [])) if key != 'missing' else len(case.get('missing', []))
             if k:
@@ -1254,6 +1316,12 @@ def describe(case):
         fin = (f'{"write the output file; " if b.get("sigtouch") else ""}kill -{b["signal"]} $$' if b.get('signal') else f'exit {b["rc"]}')
         if b.get('closefds'):
             fin = {1: 'stdout', 2: 'stderr', 3: 'stdout and stderr'}[b['closefds']] + f' CLOSED before the sleep (exec >log 2>&1); ' + fin
+        g = twin_group(spec, i)
+        if g:
+            L.append(f'xvc pipeline step new -s s{i} -c "sh job{g[0]}.sh"   # THE SAME command string for ' + ', '.join(f's{m}' for m in g) +
+                     f': job{g[0]}.sh takes the next free ticket (mkdir) of {len(g)}; ticket {g.index(i) + 1}: <journal start; sleep {b["sleep_ms"]}ms; {fin}>'
+                     + (f' --when {spec["whens"][i]}' if spec['whens'][i] != 'by_dependencies' else ''))
+            continue
         L.append(f'xvc pipeline step new -s s{i} -c "<journal start; sleep {b["sleep_ms"]}ms; stdout {b["out"]}B stderr {b["err"]}B; {fin}>"'
                  + (f' --when {spec["whens"][i]}' if spec['whens'][i] != 'by_dependencies' else ''))
     for (a, j, k) in spec['edges']:
